@@ -747,15 +747,88 @@ func c15RunFhirInt(ctx *Ctx, c c15FhirIntCase) {
 	}
 }
 
+// --- FHIR numeric elements → System values ("wherever the element can represent them") ---
+
+type c15ElemCase struct {
+	Kind string `json:"kind"` // integer unsignedInt positiveInt decimal
+	Text string `json:"text"`
+}
+
+func c15GenElem(s Src) c15ElemCase {
+	switch s.Intn(4) {
+	case 0:
+		return c15ElemCase{"integer", strconv.FormatInt(int64(pickOne(s, []int32{0, 1, -1, 2147483647, -2147483648, 2147483646, s.Int32()})), 10)}
+	case 1, 2:
+		u := pickOne(s, []uint32{0, 1, 2147483646, 2147483647, 2147483648, 2147483649, 4294967295, uint32(s.Int32()), uint32(s.Int32()) >> 1})
+		k := "unsignedInt"
+		if s.Bool() && u > 0 {
+			k = "positiveInt"
+		}
+		return c15ElemCase{k, strconv.FormatUint(uint64(u), 10)}
+	}
+	return c15ElemCase{"decimal", pickOne(s, []string{"0", "1", "-1.50", "0.10", "100", "1234567890.123456789", "-0.000001", strconv.Itoa(s.Range(-999, 999)) + "." + s.Str(digits, 1, 12)})}
+}
+
+func c15RunElem(ctx *Ctx, c c15ElemCase) {
+	var el fhir.Base
+	n, _ := new(big.Int).SetString(c.Text, 10)
+	switch c.Kind {
+	case "integer":
+		el = &dtpb.Integer{Value: int32(n.Int64())}
+	case "unsignedInt":
+		el = &dtpb.UnsignedInt{Value: uint32(n.Uint64())}
+	case "positiveInt":
+		el = &dtpb.PositiveInt{Value: uint32(n.Uint64())}
+	default:
+		el = &dtpb.Decimal{Value: c.Text}
+	}
+	fits := c.Kind == "decimal" || (n.Cmp(big.NewInt(2147483647)) <= 0 && n.Cmp(big.NewInt(-2147483648)) >= 0)
+	ctx.Eval(c.Kind+"|"+c.Text, true, "family:element-to-system", "elem:"+c.Kind, fmt.Sprintf("representable:%v", fits))
+	var got system.Any
+	var err error
+	g := guard(func() { got, err = system.From(el) })
+	desc := fmt.Sprintf("system.From(%s %s) → %v, %v", c.Kind, c.Text, got, err)
+	if g.Panic != "" {
+		ctx.Fail("element→system "+c.Kind+": panic "+g.Panic, desc)
+		return
+	}
+	if !fits {
+		if err == nil {
+			ctx.Fail("element→system "+c.Kind+": a value outside the Integer range is converted instead of refused", desc)
+		}
+		return
+	}
+	if err != nil {
+		ctx.Fail("element→system "+c.Kind+": a representable value is refused", desc)
+		return
+	}
+	want := "Integer:" + c.Text
+	if c.Kind == "decimal" {
+		want = "Decimal:" + ratOf(c.Text).FloatString(30)
+		if d, ok := got.(system.Decimal); ok {
+			if ratOf(d.String()).Cmp(ratOf(c.Text)) != 0 {
+				ctx.Fail("element→system decimal: value changed", desc)
+			}
+			return
+		}
+		ctx.Fail("element→system decimal: not a Decimal", desc)
+		return
+	}
+	if renderItem(got) != want {
+		ctx.Fail("element→system "+c.Kind+": value changed", desc+" want "+want)
+	}
+}
+
 func TestC15(t *testing.T) {
 	r := newRec("C15",
-		"five round-trip families: (string-escapes) rapid strings of 0..10 items over an alphabet with every escape target, quotes, backslash, non-ASCII/BMP/astral characters, rendered with a harness-side escaper that randomly picks the raw, simple-escape or \\uXXXX spelling; (literals) enumerated and rapid Date/DateTime/Time texts over precision × fraction digits 0..6 × offset forms, Integer/Decimal texts with leading/trailing zeros up to 30 digits, quantities with every calendar keyword and UCUM units: the literal evaluates to the denoted value, its String() re-parses to an equal value of the same precision/offset and `x = parse(x.String())` is true; (system-proto) every temporal/numeric/quantity pool value through ToProto*/…FromProto/From; (fhir-helpers) rapid FHIR date/dateTime/instant/time texts through fhir.Parse* and fhirconv.*ToString both ways and against the google/fhir JSON rendering in a carrier resource; (narrowing) all 11×11 instantiations of narrow.ToInteger with every 8/16-bit source value and ±2 around every power of two and type limit for wider sources, and fhirconv.ToInteger for boundary FHIR integers.  non-trivial = the representation is not the naive one (an escape, a fraction, an offset, sub-day precision, > 15 digits, a quantity) or From ≠ To; distinct = FNV-64 of the case",
+		"five round-trip families: (string-escapes) rapid strings of 0..10 items over an alphabet with every escape target, quotes, backslash, non-ASCII/BMP/astral characters, rendered with a harness-side escaper that randomly picks the raw, simple-escape or \\uXXXX spelling; (literals) enumerated and rapid Date/DateTime/Time texts over precision × fraction digits 0..6 × offset forms, Integer/Decimal texts with leading/trailing zeros up to 30 digits, quantities with every calendar keyword and UCUM units: the literal evaluates to the denoted value, its String() re-parses to an equal value of the same precision/offset and `x = parse(x.String())` is true; (system-proto) every temporal/numeric/quantity pool value through ToProto*/…FromProto/From; (element-to-system) generated integer/unsignedInt/positiveInt/decimal elements around the int32 and uint32 limits through system.From: representable values convert to the same number, others are refused; (fhir-helpers) rapid FHIR date/dateTime/instant/time texts through fhir.Parse* and fhirconv.*ToString both ways and against the google/fhir JSON rendering in a carrier resource; (narrowing) all 11×11 instantiations of narrow.ToInteger with every 8/16-bit source value and ±2 around every power of two and type limit for wider sources, and fhirconv.ToInteger for boundary FHIR integers.  non-trivial = the representation is not the naive one (an escape, a fraction, an offset, sub-day precision, > 15 digits, a quantity) or From ≠ To; distinct = FNV-64 of the case",
 		"fractions beyond milliseconds are outside System DateTime/Time (millisecond step size)", "Z ≡ +00:00")
 	runProperty(t, r,
 		Stage[c15StrCase]{Name: "string-escapes", Gen: c15GenStr, Run: c15RunStr, N: pick(24000, 200000)},
 		Stage[c15LitCase]{Name: "literals-enum", Enum: c15EnumLits, Run: c15RunLit},
 		Stage[c15LitCase]{Name: "literals", Gen: c15GenLit, Run: c15RunLit, N: pick(18000, 150000)},
 		Stage[c15ProtoCase]{Name: "system-proto", Enum: c15EnumProto, Run: c15RunProto},
+		Stage[c15ElemCase]{Name: "element-to-system", Gen: c15GenElem, Run: c15RunElem, N: pick(4000, 100000)},
 		Stage[c15HelperCase]{Name: "fhir-helpers", Gen: c15GenHelper, Run: c15RunHelper, N: pick(18000, 150000)},
 		Stage[c15NarrowCase]{Name: "narrowing", Enum: c15EnumNarrow, Run: c15RunNarrow},
 		Stage[c15FhirIntCase]{Name: "fhirconv-integer", Enum: c15EnumFhirInt, Run: c15RunFhirInt},
